@@ -21,6 +21,8 @@ RULE = ('cases = corpus + random scenarios: 1-2 cookies set with Response.set_co
         'secret), then Request.get_cookie and Request.cookies; in 30% of the scenarios 1-3 further get_cookie reads on '
         'the SAME request (names of the cookies sent, secrets from right / another / empty / None), each compared with '
         'a fresh request; pickle.loads observed through a recording proxy. '
+        'Plus response-side sequences (8%): set_cookie / delete_cookie on a Response, copy(HTTPResponse), further '
+        'set / delete on the copy or the original, both header lists emitted and each read back through a new Request. '
         'Plus primitive streams: http.cookies._quote/_unquote on arbitrary text, SimpleCookie parsing of arbitrary '
         'and malformed Cookie headers (through Request.cookies), base64 encode / lenient decode, HMAC-MD5. '
         'thorough adds every single-byte substitution (8 values), deletion and truncation at every position of '
@@ -205,6 +207,17 @@ def corpus():
         scn([('a', obj, S)], reads=[('a', 'other')]),
         scn([('a', obj, S)], rsecret='new-secret', reads=[('a', S)]),
         scn([('a', obj, S), ('b', 'plain', None)], reads=[('a', None), ('b', S), ('a', S), ('b', None)]),
+        # a response and its copy (redirect() copies the response): later changes must not leak either way
+        dict(mode='resp', ops=[['set', 'r', 'a', 'v1', None], ['copy'], ['set', 'c', 'a', 'v2', None]],
+             reads=[['a', None]]),
+        dict(mode='resp', ops=[['set', 'r', 'a', 'v1', None], ['copy'], ['del', 'c', 'a']], reads=[['a', None]]),
+        dict(mode='resp', ops=[['set', 'r', 'a', {'u': 1}, S], ['set', 'r', 'b', 'x y', None], ['copy'],
+                               ['set', 'r', 'a', [2], S], ['del', 'r', 'b'], ['set', 'c', 'z', 'new', None]],
+             reads=[['a', S], ['b', None], ['z', None]]),
+        dict(mode='resp', ops=[['del', 'r', 'b'], ['set', 'r', 'b', 'again', None], ['set', 'r', 'a', '\xe9;"', None],
+                               ['copy'], ['set', 'c', 'x', 'y', None]], reads=[['a', None], ['b', None]]),
+        dict(mode='resp', ops=[['set', 'c', 'a', 'early', None], ['copy'], ['set', 'c', 'a b', 'bad', None]],
+             reads=[['a', None]]),
         dict(mode='quote', s=''), dict(mode='quote', s='a"b\\c;\n\xff\u0100'), dict(mode='quote', s='"a\\"'),
         dict(mode='quote', s='"\\012\\0\\\n\\"'), dict(mode='quote', s='"'), dict(mode='quote', s='"\\'),
         dict(mode='quote', s='"\\400\\377\\38"'),
@@ -399,10 +412,46 @@ def add_reads(rng, c):
     return c
 
 
+def gen_resp(rng):
+    """set_cookie / delete_cookie on a response, copy(HTTPResponse), then set / delete on the copy or on the
+    original; names and values inside the hypotheses of the round-trip theorems (no '$', non-empty, < U+0100)"""
+    names = rng.sample(['a', 'b', 'sid', 'Zed', 'x-1', '#k', '0'], rng.randrange(1, 4))
+    sec = rng.choice(SECRETS[:3])
+
+    def val():
+        if rng.random() < 0.5:
+            v = ''
+            while not v or any(ord(ch) > 255 for ch in v) or '\ud800' in v:
+                v = gen_text(rng, 8) if rng.random() < 0.7 else gen_mojibake(rng)
+            return v, None
+        return gen_obj(rng), sec
+
+    def op(who):
+        n = rng.choice(names)
+        if rng.random() < 0.25:
+            return ['del', who, n]
+        v, s = val()
+        return ['set', who, n, v, s]
+    ops = [op('r') for _ in range(rng.randrange(0, 4))]
+    if rng.random() < 0.9:
+        ops.append(['copy'])
+        ops += [op(rng.choice(['r', 'c', 'c'])) for _ in range(rng.randrange(1, 5))]
+        if rng.random() < 0.15:
+            ops.append(['copy'])
+            ops += [op(rng.choice(['r', 'c'])) for _ in range(rng.randrange(0, 3))]
+    reads = []
+    for n in names:
+        for s in (None, sec):
+            reads.append([n, s])
+    return dict(mode='resp', ops=ops, reads=reads)
+
+
 def gen(rng, n):
     for _ in range(n):
         r = rng.random()
-        if r < 0.55:
+        if r < 0.08:
+            yield gen_resp(rng)
+        elif r < 0.55:
             c = gen_scn(rng)
             yield add_reads(rng, c) if rng.random() < 0.3 else c
         elif r < 0.8:
@@ -463,6 +512,8 @@ def run_impl(case):
         return dict(e=list(base64.b64encode(b)), d=d)
     if m == 'hmac':
         return dict(d=list(hmac.new(bytes(case['k']), bytes(case['m']), digestmod=hashlib.md5).digest()))
+    if m == 'resp':
+        return run_resp(case)
     return run_scn(case)
 
 
@@ -502,6 +553,77 @@ def project(obs, case):
         obs = dict(obs)
         del obs['fresh']
     return obs
+
+
+def rcase_cookies(case):
+    """the set operations of a resp case in the shape read_once / pk_of expect"""
+    return [dict(name=o[2], value=o[3], secret=o[4]) for o in case['ops'] if o[0] == 'set']
+
+
+def strip_attrs(w):
+    i = find(w, 59)
+    return w if i < 0 else w[:i]
+
+
+def run_resp(case):
+    """operations on a Response and on its copy (BaseResponse.copy(HTTPResponse), as redirect() makes it);
+    then BOTH header lists are emitted and each is read back through a new Request"""
+    from http.cookies import CookieError
+    import ombott.common_helpers as ch
+    from ombott import Request
+    from ombott.response import Response, HTTPResponse
+    proxy = PickleProxy()
+    saved = ch.pickle
+    ch.pickle = proxy
+    fake = dict(cookies=rcase_cookies(case))
+    try:
+        resp = {'r': Response(), 'c': None}
+        codes = []
+        for o in case['ops']:
+            try:
+                if o[0] == 'copy':
+                    resp['c'] = resp['r'].copy(HTTPResponse)
+                elif resp[o[1]] is None:
+                    codes.append(7)
+                    continue
+                elif o[0] == 'set':
+                    resp[o[1]].set_cookie(o[2], o[3], secret=o[4])
+                else:
+                    resp[o[1]].delete_cookie(o[2])
+                codes.append(0)
+            except UnicodeEncodeError:
+                codes.append(4)
+            except TypeError:
+                codes.append(1)
+            except ValueError:
+                codes.append(2)
+            except CookieError:
+                codes.append(3)
+        out = dict(codes=codes)
+        for who in ('r', 'c'):
+            x = resp[who]
+            if x is None:
+                out[who] = None
+                continue
+            try:
+                hl = x.headerlist
+            except UnicodeEncodeError:
+                out[who] = 'emit_error'
+                continue
+            wires = [cps(v) for k, v in hl if k == 'Set-Cookie']
+            hdr = []
+            for i, w in enumerate(wires):
+                hdr += ([59, 32] if i else []) + strip_attrs(w)
+            rq = Request(environ(HTTP_COOKIE=uncps(hdr)))
+            try:
+                cookies = [[cps(k), cps(v)] for k, v in rq.cookies.items()]
+            except CookieError:
+                cookies = 'CookieError'
+            reads = [list(read_once(rq, proxy, fake, n, s)) for n, s in case['reads']]
+            out[who] = dict(wires=wires, cookies=cookies, reads=reads)
+        return out
+    finally:
+        ch.pickle = saved
 
 
 def run_scn(case):
@@ -569,6 +691,16 @@ def encode(case):
         if as_obj(c):
             return enc_str(cps(c['name'])) + [1] + enc_str(pk_of(c)) + opt_str(c['secret'])
         return enc_str(cps(c['name'])) + [0] + enc_str(cps(c['value'])) + opt_str(c['secret'])
+    if m == 'resp':
+        def eop(o):
+            oc = 1 if len(o) > 1 and o[1] == 'c' else 0
+            if o[0] == 'set':
+                return [0, oc] + spec(dict(name=o[2], value=o[3], secret=o[4]))
+            if o[0] == 'del':
+                return [1, oc] + enc_str(cps(o[2]))
+            return [2]
+        return [5] + enc_list(case['ops'], eop) + enc_list(case['reads'], lambda r: enc_str(cps(r[0])) + opt_str(r[1]))
+
     t = case['tamper']
     return ([0] + enc_list(case['cookies'], spec) + [t['kind'], t['a'], t['b']] + enc_str(t['repl'])
             + enc_str(cps(case['rname'])) + opt_str(case['rsecret'])
@@ -613,6 +745,21 @@ def decode(out, case):
         return dict(e=e, d=r.str() if r.int() else None)
     if m == 'hmac':
         return dict(d=r.str())
+    if m == 'resp':
+        fake = dict(cookies=rcase_cookies(case))
+
+        def dresp(q):
+            tag = q.int()
+            if tag == 2:
+                return 'emit_error'
+            wires = q.list(lambda z: z.str())
+            cookies = dec_pres(q)
+            reads = q.list(lambda z: [dec_gres(z, fake), z.str() if z.int() else None])
+            return dict(wires=wires, cookies=cookies, reads=reads)
+        out = dict(codes=r.list(lambda q: q.int()))
+        out['r'] = dresp(r)
+        out['c'] = dresp(r) if r.int() else None
+        return out
     tag = r.int()
     if tag == 1:
         return dict(st='set_error', i=r.int(), e=r.int())
@@ -645,7 +792,60 @@ def contains(hay, needle):
     return any(hay[i:i + n] == needle for i in range(len(hay) - n + 1))
 
 
+DELETED = object()
+
+
+def oracle_resp(case, obs):
+    """each response's cookies are the last values set ON THAT response (the copy starts from the original's
+    cookies at the moment of the copy); a deleted cookie reads as absent"""
+    if obs.get('hang') or obs.get('escaped'):
+        return 'harness: %s' % obs
+    exp = {'r': {}, 'c': None}
+    for o, code in zip(case['ops'], obs['codes']):
+        if code != 0:
+            continue
+        if o[0] == 'copy':
+            exp['c'] = dict(exp['r'])
+        elif o[0] == 'set':
+            exp[o[1]][o[2]] = (o[3], o[4])
+        else:
+            exp[o[1]][o[2]] = DELETED
+    for who, label in (('r', 'the original response'), ('c', 'the copy')):
+        e, ob = exp[who], obs.get(who)
+        if e is None:
+            continue
+        if not isinstance(ob, dict):
+            return '%s: %s' % (label, ob)
+        if ob['cookies'] == 'CookieError':
+            return '%s: its Set-Cookie headers cannot be read back (CookieError)' % label
+        seen = {uncps(k): uncps(v) for k, v in ob['cookies']}
+        for name in seen:
+            if name not in e:
+                return '%s emits cookie %r that was never set on it' % (label, name)
+        for name, ev in e.items():
+            if ev is DELETED:
+                if seen.get(name, '') != '':
+                    return '%s: cookie %r was deleted on it but is emitted with value %r' % (label, name, seen[name][:30])
+                continue
+            value, secret = ev
+            idx = [i for i, r in enumerate(case['reads']) if r[0] == name and (r[1] or None) == (secret or None)]
+            if not idx:
+                continue
+            g = ob['reads'][idx[0]][0]
+            if secret:
+                cs = rcase_cookies(case)
+                if g[0] != 'val' or not jeq(cs[g[1]]['value'], value) :
+                    return ('%s: signed cookie %r reads back as %s, not as the value last set on this response'
+                            % (label, name, describe(g)))
+            elif g != ['str', cps(value)]:
+                return ('%s: cookie %r reads back as %s, not as %r, the value last set on this response'
+                        % (label, name, describe(g), value[:30]))
+    return None
+
+
 def oracle(case, obs):
+    if case['mode'] == 'resp':
+        return oracle_resp(case, obs)
     if case['mode'] != 'scn':
         return None
     if obs.get('hang') or obs.get('escaped'):
@@ -766,6 +966,8 @@ PREDICATES = {
 
 
 def nontrivial(case, obs):
+    if case['mode'] == 'resp':
+        return any(o[0] == 'copy' for o in case['ops']) and len(case['ops']) > 2
     if case['mode'] == 'scn':
         if obs.get('st') != 'ok':
             return False
@@ -791,6 +993,14 @@ def classify(case, obs):
 
 
 def shrink(case):
+    if case['mode'] == 'resp':
+        ops = case['ops']
+        for i in range(len(ops)):
+            yield dict(case, ops=ops[:i] + ops[i + 1:])
+        rd = case['reads']
+        for i in range(len(rd)):
+            yield dict(case, reads=rd[:i] + rd[i + 1:])
+        return
     if case['mode'] != 'scn':
         s = case.get('s')
         if s is not None:
@@ -821,7 +1031,7 @@ MANIFEST = dict(
           '(C15_loader_guarded, and C15_request_loader_guarded for Request.get_cookie on ANY Cookie header); any change of the signature part of a valid cookie is rejected without unpickling '
           '(C15_signature_tamper); acceptance of a changed payload or of another key yields an explicit MAC '
           'collision (C15_payload_tamper, C15_other_secret: reduction to unforgeability of HMAC-MD5); signed and '
-          'plain cookies round-trip through Set-Cookie -> Cookie -> get_cookie under the guards the code really has '
+          'plain cookies round-trip through Set-Cookie -> Cookie -> get_cookie under the guards the code really has; reads on one request are independent (C15_reads_independent); a response and its copy do not share cookies (C15_copy_independent) '
           '(legal token name that is not reserved and does not start with $, value at most 4096 long; plain: '
           'non-empty, code points < 256). The model (coq/model/Cookie.v, including http.cookies quoting and parsing, '
           'base64 and HMAC-MD5) is tied to /repo and CPython on every run by a differential correspondence with an '
